@@ -138,6 +138,11 @@ type lexDoc struct {
 	CDATA, CharRef, Entity, Comment, PI, Mixed, Prolog bool
 	MaxDepth, MaxFan                                   int
 	Tokens                                             int // tokens from the root's start to its end, inclusive
+	// PrefixSpelled: some element or attribute name lies in a namespace whose
+	// name is, at that place, also a prefix bound to another namespace
+	// (<a:x xmlns:a="b" xmlns:b="c"/>): a reader that resolves already
+	// resolved names once more moves such a name.
+	PrefixSpelled bool
 }
 
 func lexPass(b []byte) (*lexDoc, error) {
@@ -222,6 +227,22 @@ func lexPass(b []byte) (*lexDoc, error) {
 				}
 			}
 			stack = append(stack, fr)
+			spaces := []string{}
+			if v, ok := lookup(t.Name.Space); ok {
+				spaces = append(spaces, v)
+			}
+			for _, a := range t.Attr {
+				if a.Name.Space != "" && a.Name.Space != "xmlns" && a.Name.Space != "xml" {
+					if v, ok := lookup(a.Name.Space); ok {
+						spaces = append(spaces, v)
+					}
+				}
+			}
+			for _, sp := range spaces {
+				if v, ok := lookup(sp); ok && sp != "" && v != sp {
+					ld.PrefixSpelled = true
+				}
+			}
 			if t.Name.Space != "" {
 				le.InNS = true
 			} else if v, _ := lookup(""); v != "" {
@@ -307,7 +328,7 @@ func (ld *lexDoc) features() []string {
 		}
 	}
 	for k, v := range map[string]bool{"cdata": ld.CDATA, "charref": ld.CharRef, "entity": ld.Entity, "comment": ld.Comment,
-		"pi": ld.PI, "mixed-content": ld.Mixed, "prolog": ld.Prolog} {
+		"pi": ld.PI, "mixed-content": ld.Mixed, "prolog": ld.Prolog, "namespace-spelled-like-bound-prefix": ld.PrefixSpelled} {
 		if v {
 			set[k] = true
 		}
